@@ -130,7 +130,7 @@ func (ev *evidence) write() {
 		"standard-library calls are modelled by the engine's intrinsics (strings, strconv, fmt, errors, sort, regexp-by-template, os.Getenv); each explored path is additionally replayed natively and compared (traces_validated_against_impl)",
 		"strconv.ParseFloat is an uninterpreted function pair (pf_ok, pf_val); float64 values are their bit patterns",
 		"one SMT character models one byte; models are restricted to code points <= 0xFF",
-		"unsat answers of z3 are trusted",
+		"unsat answers of cvc5 / z3 are trusted (the first definite answer of the portfolio is taken)",
 	}
 	for a := range ev.assumptions {
 		assumptions = append(assumptions, a)
@@ -154,7 +154,9 @@ func (ev *evidence) write() {
 		"known_findings_seen":           ev.KnownHits,
 		"violations_found":              vio,
 		"native_build_s":                ev.NativeBuildS,
-		"solver":                        "z3 4.8.12 (z3 -in, push/pop), one process per worker",
+		"solver":                        "portfolio per query: z3 5.1 and cvc5 1.0 raced as fresh processes, z3 4.8.12 as last resort for queries without regular expressions; sliced path conditions, canonical query cache",
+		"query_cache_hits":              cacheHits,
+		"solver_stages":                 stageSummary(),
 		"exhaustive":                    len(ev.Inconclusive) == 0,
 		"rule":                          "states = decision-tree nodes (paths + decisions) of the symbolic execution of the harness entry points over the go/ssa form of the current /repo tree; every feasible path within the harness bounds is explored; each assertion on each path is an SMT query PC ∧ ¬assertion",
 	}
